@@ -123,6 +123,16 @@ SCHEDULES = [
      ["put 61 31*32768", "put 62 3232"],
      ["t.park R get.lookup 1", "t.spawn R get 61", "t.wait R 5000", "t.spawn M merge", "t.wait M 400", "t.release R", "t.join R 5000", "t.join M 5000", "get 61", "get 62", "idle"],
      {2: ["parked get.lookup"], 4: ["timeout", "done ok"], 6: ["done #32768:"], 7: ["done ok"], 8: ["#32768:"], 9: ["3232"], 10: ["idle 1"]}),
+    ("two deletes of the same key race for the writer lock: exactly one of them finds the key",
+     "cfg mfs=1000000 pool=2",
+     ["put 61 3131"],
+     ["t.park A del.before_publish 1", "t.spawn A del 61", "t.wait A 5000", "t.spawn B del 61", "sleep 150", "t.release A", "t.join A 5000", "t.join B 5000", "get 61"],
+     {2: ["parked del.before_publish"], 6: ["done true"], 7: ["done false"], 8: ["nil"]}),
+    ("a set and a delete of the same key race: the delete waiting for the lock sees the key the set just published",
+     "cfg mfs=1000000 pool=2",
+     [],
+     ["t.park A put.before_publish 1", "t.spawn A put 61 3131", "t.wait A 5000", "t.spawn B del 61", "sleep 150", "t.release A", "t.join A 5000", "t.join B 5000", "get 61"],
+     {2: ["parked put.before_publish"], 6: ["done ok"], 7: ["done true"], 8: ["nil"]}),
     ("rollover between two writes: reader holds a mapping of the old active file, new entries land in the next file",
      "cfg mfs=60 pool=1",
      ["put 61 31*40"],
@@ -264,7 +274,7 @@ def run_c17(rep, tier, seed):
         i_ops = len(lines)
         lines += ["put 61 3434", "get 61", "del 61", "merge", "sync"]
         i_wait = len(lines)
-        lines += [f"waitbg 0 {deadline}", "sleep 80", "trace-settle", "calls-after-drop", "close", "reopen", "get 61", "get 62", "close"]
+        lines += [f"waitbg 0 {deadline}", "sleep 80", "tdrain", "close", "reopen", "get 61", "get 62", "close"]
         # `trace-settle` / `calls-after-drop` are evaluated from the per-line traces; keep placeholders out of the script
         script = [l for l in lines if l not in ("trace-settle", "calls-after-drop")]
         shutil.rmtree(root, ignore_errors=True)
@@ -364,9 +374,8 @@ def run_c18(rep, tier, seed):
     hour = datetime.datetime.now().hour
     cases = []
     n = 1 if tier == "quick" else 5
-    for _ in range(n):
+    for (jn, jd) in [(0, 1), (3, 10), (1, 1)] * n:
         interval = rng.choice([40, 80, 150])
-        jn, jd = rng.choice([(0, 1), (3, 10), (1, 1)])
         # writes: k overwritten 3x -> file 0 has 3 dead of 4 entries (frag 3/4), ~84 dead bytes
         above = "tfrag=1/2 tdead=1099511627776"
         below = "tfrag=7/8 tdead=1099511627776"
@@ -377,6 +386,10 @@ def run_c18(rep, tier, seed):
         base = f"mfs=1000000 interval={interval} jitter={jn}/{jd} frag=0/1 dead=0 small=1099511627776"
         deadline = int(interval * (1 + jn / jd)) + SLACK
         quiet = max(6 * interval * 2, 600)
+        if (jn, jd) != (3, 10) and tier == "quick":
+            # quick tier: the other jitter settings only re-run the positive case
+            cases += [(f"policy=always, fragmentation trigger exceeded, jitter {jn}/{jd}", f"cfg {base} policy=always {above}", "merge", deadline)]
+            continue
         cases += [
             (f"policy=always, fragmentation trigger exceeded ({above})", f"cfg {base} policy=always {above}", "merge", deadline),
             (f"policy=always, dead-bytes trigger exceeded ({above_bytes})", f"cfg {base} policy=always {above_bytes}", "merge", deadline),
